@@ -254,6 +254,36 @@ func c02Run(ctx *core.Ctx) {
 			c02One(ctx, c02Model(t, l))
 		}
 	}
+	// modular metadata: module and source-file attribution on types, relations and conditions must not disturb the
+	// conversion; what comes back is the model without attribution (DSL of a full model cannot carry it), types in
+	// the documented modular order
+	for i, tm := range c14Modular(false) {
+		if !ctx.Mine(i) {
+			continue
+		}
+		ctx.Eval(1)
+		pm := ref.ToProto(tm.M)
+		for _, src := range []bool{false, true} {
+			ctx.Trans(1)
+			dsl, err, pn := printModel(pm, transformer.WithIncludeSourceInformation(src))
+			cs := c02Case{tm.M}
+			if err != nil || pn != nil {
+				ctx.Violation("modular-model-rejected", fmt.Sprintf("JSON->DSL failed on a modular model: %v %v", err, pn), cs, "", "")
+				break
+			}
+			got, _, perr, ppn := parseDoc(dsl, false)
+			if perr != nil || ppn != nil {
+				ctx.Violation("printed-dsl-does-not-parse", fmt.Sprintf("%v %v\n%s", perr, ppn, dsl), cs, "", "")
+				break
+			}
+			o := ref.DumpOpts{NoSource: true, SortTypes: true}
+			if a, b := ref.Dump(pm, o), ref.Dump(got, o); a != b {
+				ctx.Violation("roundtrip-loses-or-changes", "modular model: parse(print(M)) differs from M beyond module/file attribution and type order\n"+dsl, cs, a, b)
+				break
+			}
+			ctx.Flag("modular-metadata")
+		}
+	}
 	// identifier classes and parameter types through the JSON direction as well
 	if ctx.Shard == 0 {
 		for _, tm := range append(gen.NameModels(), gen.CondModels()...) {
@@ -291,7 +321,7 @@ func init() {
 		ID: "C02",
 		Rule: "all rewrite trees with <= 3 (quick) / <= 4 (thorough) leaves, operator depth <= 3, union/intersection with 1..3 children, exclusion, leaves {direct assignment, b, b from p} " +
 			"with the direct assignment in any position and multiplicity, x restriction lists (3 per tree thorough, 1 rotating quick; incl. restrictions on relations without direct assignment), " +
-			"each as protobuf and as JSON text; plus all identifier-class and parameter-type models. Oracle: reference predicate expressible(), reference normalise(). " +
+			"each as protobuf and as JSON text; plus all identifier-class and parameter-type models and modular models (module / source-file attribution on types, relations, conditions; both option values). Oracle: reference predicate expressible(), reference normalise(). " +
 			"states = distinct round-tripped models, non-trivial = distinct rewrite trees (both verdicts)",
 		Assume: []string{
 			"a relation with a direct assignment has at least one type restriction (an empty [] is not DSL; degenerate protobufs are C08's domain)",
@@ -301,7 +331,7 @@ func init() {
 		Technique: "bounded exhaustive enumeration of rewrite trees against a reference predicate and normal form",
 		Run:       c02Run,
 		Finish: func(r *core.Result) error {
-			for _, f := range []string{"accepted", "rejected", "normalised-differs"} {
+			for _, f := range []string{"accepted", "rejected", "normalised-differs", "modular-metadata"} {
 				if !r.Flags[f] {
 					return fmt.Errorf("C02: guard %q never exercised", f)
 				}
